@@ -1,5 +1,5 @@
 (* C19 — reported inflation equals the actual annualised emission rate. *)
-From C4E Require Import Base Minter MinterProofs MinterRate.
+From C4E Require Import Base Minter MinterProofs MinterFrozen MinterRate.
 Open Scope Z_scope.
 
 (* zero before the period's start, for no-minting periods, and for an exponential period whose end
@@ -83,6 +83,35 @@ Proof.
   split; [reflexivity|]. split; [lia|]. vm_compute. discriminate.
 Qed.
 Print Assumptions C19_refuted_K10.
+
+(* lowering the running linear period's amount below what the period already minted (a parameter update validation
+   accepts) freezes the schedule: every later block mints nothing and leaves the state untouched — also past the
+   period's end, so the following periods never start: finding K13 *)
+Theorem C19_lowered_amount_freezes_the_schedule_K13 :
+  forall p st cur start A e,
+  find_cur (mp_minters p) (s_seq st) None = Some cur -> period_start p (s_seq st) = Ok start ->
+  m_cfg cur = CLinear A -> m_end cur = Some e -> 0 <= A -> unix_milli start < unix_milli e ->
+  0 <= s_rem_prev st < P -> A < s_minted st ->
+  forall now, mint p st now = Ok (0, st, []).
+Proof. exact lowered_amount_freezes_the_schedule. Qed.
+Print Assumptions C19_lowered_amount_freezes_the_schedule_K13.
+
+(* ... while a positive inflation keeps being reported, also after the period's end *)
+Theorem C19_refuted_K13 :
+  exists p st supply, params_valid p = true /\ contains_minter p (s_seq st) = true /\
+    (forall now, mint p st now = Ok (0, st, [])) /\
+    exists i, current_inflation p st supply 3000000000 = Ok i /\ 0 < i.
+Proof.
+  exists {| mp_denom_ok := true; mp_start := 0;
+            mp_minters := [ {| m_seq := 1; m_end := Some 2000000000; m_cfg := CLinear 10 |};
+                            {| m_seq := 2; m_end := None; m_cfg := CNone |} ] |},
+         {| s_seq := 1; s_minted := 500; s_rem := 0; s_rem_prev := 0; s_last := 999 |}, 1000.
+  split; [reflexivity|]. split; [reflexivity|]. split.
+  - apply (C19_lowered_amount_freezes_the_schedule_K13 _ _ {| m_seq := 1; m_end := Some 2000000000; m_cfg := CLinear 10 |} 0 10 2000000000);
+      try reflexivity; cbn; try lia. split; [lia|reflexivity].
+  - eexists. split; [vm_compute; reflexivity|reflexivity].
+Qed.
+Print Assumptions C19_refuted_K13.
 
 Example C19_example :
   calc_inflation {| m_seq := 1; m_end := Some YEAR; m_cfg := CLinear 1000 |} 10000 0 5 = Ok (P / 10).
